@@ -348,7 +348,7 @@ fn run_ops(ops: &[Op], slots: usize) -> (Result<(), String>, Flags) {
     (Ok(()), fl)
 }
 
-const NAMES: &[&str] = &["a", "b", "c", "d", "type", "ns:e", "e", "p:a"];
+const NAMES: &[&str] = &["a", "b", "c", "d", "type", "ns:e", "e", "p:a", "vec", "vec2", "a2"];
 const ATTRS: &[&str] = &["id", "k", "type", "x:y", "xmlns:n", "a"];
 const TEXTS: &[&str] = &["t", "", " "];
 
@@ -667,7 +667,7 @@ impl Property for C16 {
         run_ops(&ops, 3).0.map_err(|e| fail(e, &ops))
     }
     fn rule(&self) -> String {
-        "fixed: hand-built chains of depth d and parents with d children for d around 16..300 (every third child optional, every fourth multiple, attribute and text at the bottom, one child removed and re-added); exhaustive: every sequence of up to 4 (quick) / 5 (thorough) operations from a universe of 24 (add/mark-optional/remove a or b at the root or under a, three attribute merges, mark-multiple, set/clear text at both nodes) on a tree rooted r; random: tape-decoded sequences of up to 40 operations over three tree slots (subtrees are copied between slots, removed children can be re-attached), names a,b,c,d,type,ns:e,e,p:a (so that siblings may differ only in the namespace prefix; renderings of such trees are checked for well-formedness only), attributes id,k,type,x:y,xmlns:n,a. After every operation every tree is compared with an ordered-map model (unique child names, lookup/removal by name, no-op add, subtree kept by mark-optional); renderings (intermediate and final) must satisfy the C04 oracle and reflect exactly the model's children, attributes, optionality, multiplicity and text. Non-trivial = the sequence contains add-after-mark-optional, remove-then-add or merge-after-add on one node; distinct by hash of the sequence (random) or by enumeration (exhaustive).".into()
+        "fixed: hand-built chains of depth d and parents with d children for d around 16..300 (every third child optional, every fourth multiple, attribute and text at the bottom, one child removed and re-added); exhaustive: every sequence of up to 4 (quick) / 5 (thorough) operations from a universe of 24 (add/mark-optional/remove a or b at the root or under a, three attribute merges, mark-multiple, set/clear text at both nodes) on a tree rooted r; random: tape-decoded sequences of up to 40 operations over three tree slots (subtrees are copied between slots, removed children can be re-attached), names a,b,c,d,type,ns:e,e,p:a,vec,vec2,a2 (literal names that equal a suffixed struct name; and so that siblings may differ only in the namespace prefix; renderings of such trees are checked for well-formedness only), attributes id,k,type,x:y,xmlns:n,a. After every operation every tree is compared with an ordered-map model (unique child names, lookup/removal by name, no-op add, subtree kept by mark-optional); renderings (intermediate and final) must satisfy the C04 oracle and reflect exactly the model's children, attributes, optionality, multiplicity and text. Non-trivial = the sequence contains add-after-mark-optional, remove-then-add or merge-after-add on one node; distinct by hash of the sequence (random) or by enumeration (exhaustive).".into()
     }
     fn assumptions(&self) -> Vec<String> {
         vec![
